@@ -15,5 +15,5 @@ PLAN = {
     "C20": [("blowfish", _BF), ("blowfish+bcrypt", _BC), ("cast5", ["cast5/conf.rs"]), ("idea", ["idea/conf.rs", "idea/inv16.rs"]), ("rc2", ["rc2/conf.rs", "rc2/rt.rs"]), ("xtea", ["xtea/conf.rs"])],
 }
 ASSUMPTIONS = {
-    "C01": ["IDEA round trip: the cancellation laws mul(mul(x,k), mul_inv(k)) == x == mul(mul(x, mul_inv(k)), k) imposed on the uninterpreted (mul, mul_inv) pair follow from the solver-decided leaf lemmas idea_leaf_mul (mul is multiplication mod 65537 with 0 = 2^16) and idea_leaf_inv (mul(k, mul_inv(k)) == 1) by associativity/commutativity of multiplication modulo the prime 65537 (arithmetic, not decided by the solver)"],
+    "C01": ["IDEA round trip: the cancellation laws mul(mul(x,k), mul_inv(k)) == x == mul(mul(x, mul_inv(k)), k) imposed on the uninterpreted (mul, mul_inv) pair follow from the solver-decided leaf lemmas idea_leaf_mul (mul is multiplication mod 65537 with 0 = 2^16) and idea_inv_r0..r15 (mul(k, mul_inv(k)) == 1, sixteen argument ranges) by associativity/commutativity of multiplication modulo the prime 65537 (arithmetic, not decided by the solver)"],
 }
